@@ -194,6 +194,17 @@ ExecVar == /\ InBody /\ Op.k = "var"
               IN st' = IF Op.n \in DOMAIN st.cont[Cur] \/ ~maybeAttr THEN st
                        ELSE AddObj(st, "Attribute", Op.n, Cur, [m |-> Top.mod, pc |-> Top.pc])
            /\ Advance /\ UNCHANGED <<mobj, mstate, unproc, classes, phase, log, post>>
+\* a bare string statement (attribute docstring): no effect on the registry
+ExecStr == /\ InBody /\ Op.k = "str"
+           /\ Advance /\ UNCHANGED <<st, mobj, mstate, unproc, classes, phase, log, post>>
+\* def __init__(self): self.n = <value>  : a Function __init__, then _handleInstanceVar adds the attribute to the class
+ExecIvar == /\ InBody /\ Op.k = "ivar"
+            /\ LET s1 == AddObj(st, "Function", "__init__", Cur, [m |-> Top.mod, pc |-> Top.pc])
+                   found == FindIn(s1, Cur, Op.n, BO)
+                   maybeAttr == found = NoObj \/ Cls(s1, found) = "Attribute"
+               IN st' = IF Op.n \in DOMAIN s1.cont[Cur] \/ ~maybeAttr THEN s1
+                        ELSE AddObj(s1, "Attribute", Op.n, Cur, [m |-> Top.mod, pc |-> 0 - Top.pc])
+            /\ Advance /\ UNCHANGED <<mobj, mstate, unproc, classes, phase, log, post>>
 \* x = a.b : _handleAliasing when x is not yet in contents (expandName always yields a string)
 ExecAlias == /\ InBody /\ Op.k = "alias"
              /\ st' = IF Op.n \in DOMAIN st.cont[Cur] THEN st
@@ -227,7 +238,7 @@ Crashed == /\ phase = "process" /\ st.crash
            /\ UNCHANGED <<st, mobj, mstate, unproc, stack, classes, log, post>>
 
 Next == /\ \/ Pick \/ OnDemand \/ ExecFrom \/ ExecStar \/ ExecImport \/ ExecClass \/ ExecEndClass
-           \/ ExecDef \/ ExecVar \/ ExecAlias \/ FinishMod \/ PostProcess \/ Crashed
+           \/ ExecDef \/ ExecVar \/ ExecAlias \/ ExecStr \/ ExecIvar \/ FinishMod \/ PostProcess \/ Crashed
         /\ UNCHANGED <<pid, sched>>
 Spec == Init /\ [][Next]_vars /\ WF_vars(Next)
 
